@@ -520,6 +520,21 @@ theorem blockAccount_frame (e : Env) (l l' : Ledger) (acc : Nat) (b : Bool) (h :
         injection h with h; injection h with h1 _; subst h1
         exact (fv.trans (mintGasCb_frame _ _ _ _ _ hm)).trans (Frame.of_eq rfl rfl rfl rfl rfl rfl rfl rfl)
 
+theorem designateNotary_frame (e : Env) (l l' : Ledger) (ns : List Nat) (w : Bool) (h : designateNotary e l ns w = some l') :
+    Frame l l' := by
+  unfold designateNotary at h
+  split at h
+  · simp at h
+  · split at h
+    · simp at h
+    · split at h
+      · simp at h
+      · split at h
+        · simp at h
+        · split at h
+          · simp at h
+          · injection h with h; subst h; exact Frame.of_eq rfl rfl rfl rfl rfl rfl rfl rfl
+
 theorem unblockAccount_frame (l : Ledger) (acc : Nat) : Frame l (unblockAccount l acc).1 := by
   unfold unblockAccount
   split
